@@ -330,6 +330,30 @@ func cmdCheck(args []string) int {
 		res, ok := runBounded(repo, verif, b, seed, *tier)
 		res["stands_in_for"] = b.What
 		boundedEv = append(boundedEv, res)
+		if !ok && res["error"] == nil {
+			// failing cases named by their input: those listed as known findings are reported as such
+			ids, _ := res["failing"].([]interface{})
+			nf, _ := res["failures"].(float64)
+			if len(ids) > 0 && int(nf) == len(ids) {
+				unknown := 0
+				var kl []string
+				for _, x := range ids {
+					name := "bounded:" + b.Name + ":" + fmt.Sprint(x)
+					if kf := isKnown(name); kf != nil {
+						nKnown++
+						knownNames = append(knownNames, name)
+						kl = append(kl, fmt.Sprintf("KNOWN-FINDING: property=%s %s %s", id, name, kf.What))
+					} else {
+						unknown++
+					}
+				}
+				if unknown == 0 {
+					lines = append(lines, kl...)
+					res["known_findings"] = len(kl)
+					ok = true
+				}
+			}
+		}
 		if !ok {
 			violations++
 			f := filepath.Join(replayDir, fmt.Sprintf("%s_bounded_%s.json", id, safeFile(b.Name)))
